@@ -172,6 +172,7 @@ package smtp
 //@   ensures @C02 stream-only-forward: (c.text.R.pos >= old(c.text.R.pos) || c.closed) && c.text == old(c.text) && c.text.R == old(c.text.R)
 //@   before dataErrorToStatus: @C04,C17 the-verdict-is-the-backends-result-for-this-message: $0 == resultof("Session.Data", 1, 1)
 //@   before (*Conn).writeResponse: @C04 final-reply-positive-exactly-when-the-backend-accepted: called("Session.Data") ==> (c.cbData != old(c.cbData) ==> ($1 == 250 <==> resultof("Session.Data", 1, 1) == nil))
+//@   before (*Conn).writeResponse: @C17 any-other-error-from-data-is-reported-554-5-0-0: called("Session.Data") ==> (c.cbData != old(c.cbData) && resultof("Session.Data", 1, 1) != nil && !istype(resultof("Session.Data", 1, 1), "*SMTPError") ==> $1 == 554 && $2[0] == 5 && $2[1] == 0 && $2[2] == 0)
 //@   before (*Conn).writeResponse: @C04,C17 a-backend-smtp-error-keeps-its-code: called("Session.Data") ==> (c.cbData != old(c.cbData) && istype(resultof("Session.Data", 1, 1), "*SMTPError") ==> $1 == asref(resultof("Session.Data", 1, 1), "*SMTPError").Code)
 
 // ---------------------------------------------------------------------------------------
@@ -192,7 +193,8 @@ package smtp
 //@   ensures c.finals == old(c.finals) + (c.lastCode >= 300 && c.lastCode < 400 ? 0 : 1)
 
 //@ contract (*Conn).handleGreet(c, enhanced, arg)
-//@   prop C03 C04 C07 C08 C12
+//@   prop C03 C04 C07 C08 C12 C17
+//@   before (*Conn).writeError: @C17 the-documented-generic-code-for-session-creation-and-envelope-commands-is-451-4-0-0: $1 == 451 && $2[0] == 4 && $2[1] == 0 && $2[2] == 0
 //@   requires connInv(c) && !c.closed
 //@   modifies c.helo, c.session, c.bdatPipe, c.bdatStatus, c.bytesReceived, c.fromReceived, c.recipients, c.replies, c.finals, c.lastCode, c.cbNew, c.cbReset, c.bdatPipe.state
 //@   before Backend.NewSession: @C03 greeting-name-visible: c.helo == domain && domain != ""
@@ -221,7 +223,8 @@ package smtp
 //@   ensures err == nil ==> domain != ""
 
 //@ contract (*Conn).handleMail(c, arg)
-//@   prop C03 C04 C06 C08 C11 C12 C14
+//@   prop C03 C04 C06 C08 C11 C12 C14 C17
+//@   before (*Conn).writeError: @C17 the-documented-generic-code-for-session-creation-and-envelope-commands-is-451-4-0-0: $1 == 451 && $2[0] == 4 && $2[1] == 0 && $2[2] == 0
 //@   requires connInv(c) && !c.closed
 //@   modifies c.binarymime, c.fromReceived, c.replies, c.finals, c.lastCode, c.cbMail
 //@   ensures inv: connInv(c) && !c.closed
@@ -272,7 +275,8 @@ package smtp
 //@     invariant args != nil && (forall k: string :: itvisited(k) ==> has(args, k))
 
 //@ contract (*Conn).handleRcpt(c, arg)
-//@   prop C03 C04 C08 C11 C12 C14
+//@   prop C03 C04 C08 C11 C12 C14 C17
+//@   before (*Conn).writeError: @C17 the-documented-generic-code-for-session-creation-and-envelope-commands-is-451-4-0-0: $1 == 451 && $2[0] == 4 && $2[1] == 0 && $2[2] == 0
 //@   requires connInv(c) && !c.closed
 //@   modifies c.recipients, c.recipients[**], c.replies, c.finals, c.lastCode, c.cbRcpt
 //@   ensures inv: connInv(c) && !c.closed
